@@ -2,6 +2,7 @@ package checks
 
 import (
 	"fmt"
+	"github.com/opsidian/parsley/parsley"
 	"sort"
 
 	"verifharness/internal/gram"
@@ -69,7 +70,9 @@ func c01case(c GCase, a *run.Acc) {
 	gd := gram.NewGuard(env.Base)
 	gd.MaxEvents, gd.MaxCalls = 60000, 120000
 	gd.NoAssert = true // the activation bound is C02's business; here results are judged whenever the call returns
-	b := gram.Build(g, &gram.Hooks{Inside: gd.Inside, Outside: gd.Outside, MemoExpr: c.MemoExpr})
+	b := gram.Build(g, &gram.Hooks{Inside: gd.Inside, Outside: gd.Outside, MemoExpr: c.MemoExpr,
+		// the activation bound is claimed for EVERY memoized parser, also the extra wrappers around sub-expressions
+		UnderMemo: func(e *gram.Expr, p parsley.Parser) parsley.Parser { return gd.Inside(1000+e.ID, p) }})
 	o := gram.Run(env, b.NTs[c.NT], c.Pos)
 	a.Count("probe_events", int64(gd.Events))
 	a.Count("curtailed_calls_observed", int64(gd.Curtailed))
